@@ -147,5 +147,12 @@ class Grid2DMovingAgent(CellAgent):
             raise ValueError(f"Invalid direction: {direction}")
 
         move_vector = self.DIRECTION_MAP[direction]
+        # find the destination first, so that a move that runs off the space
+        # leaves the agent where it was
+        new_cell = self.cell
         for _ in range(distance):
-            self.move_relative(move_vector)
+            new_cell = new_cell.connections.get(move_vector)
+            if new_cell is None:
+                raise ValueError(f"No cell in direction {move_vector}")
+        if distance > 0:
+            self.cell = new_cell
